@@ -275,6 +275,14 @@ func (f *FieldCopyFromGenerator) genObjectListOrMap() *j.Statement {
 			g.Var().Id("t").Id(f.i.WithType(f.GoElemType))
 
 			g.If(j.Id("!v.Null && !v.Unknown")).BlockFunc(func(g *j.Group) {
+				if m.IsEmpty {
+					// A message without fields has nothing to copy, it only has to be allocated
+					if f.IsNullable {
+						g.Id("t").Op("=&").Id(f.i.WithType(f.GoElemTypeIndirect)).Values()
+					}
+					return
+				}
+
 				// tf := v
 				g.Id("tf").Op(":=").Id("v")
 
